@@ -178,6 +178,26 @@ class TTuple(Ty):
         return self.sort().accessor(0, i)(t)
 
 
+class TRecord(Ty):
+    """Fixed string-keyed record (e.g. IMAPSearch.args)."""
+
+    def __init__(self, name: str, fields: dict):
+        self.name = "rec:" + name
+        self.fields = dict(fields)
+        self.keys = list(fields)
+
+    def sort(self):
+        if self.name not in _cache:
+            m = _mangle(self.name)
+            dt = z3.Datatype(m)
+            dt.declare("mk_" + m, *[(f"{k}_" + m, t.sort()) for k, t in self.fields.items()])
+            _cache[self.name] = dt.create()
+        return _cache[self.name]
+
+    def get(self, t, key):
+        return self.sort().accessor(0, self.keys.index(key))(t)
+
+
 class TOpt(Ty):
     def __init__(self, inner: Ty):
         self.inner = inner
